@@ -141,6 +141,19 @@ def checkFnTypes (m : Module) (f : Fn) (recorded : List Sexp) : List String :=
           -- a pointer-typed expression (variables, access chains on pointers) is recorded as a pointer: skip
           let errs := if inf != .unknown && rec_ != .unknown && inf != rec_ then
               errs ++ [s!"fn {f.name}: expression {i}: recorded type {showSh rec_} but inferred {showSh inf}"] else errs
+          -- constructor of an array: every component has the element type (`prev` holds the types of the earlier expressions)
+          let errs := match e with
+            | .compose t hs =>
+              match m.types[t]? with
+              | some (.array b _ _) =>
+                let want := shOfTy m.types b
+                errs ++ hs.filterMap (fun h =>
+                  let got := prev.getD h Sh.unknown
+                  if want != .unknown && got != .unknown && want != got then
+                    some s!"fn {f.name}: expression {i}: array constructor component {h} has type {showSh got} but the element type is {showSh want}"
+                  else none)
+              | _ => errs
+            | _ => errs
           -- an evaluated value expression whose entry in ExpressionTypes is empty (neither handle nor value)
           let errs := if inf != .unknown && (match recorded[i]? with | some (.atom "nil") => true | _ => false) then
               errs ++ [s!"fn {f.name}: expression {i}: no recorded type (inferred {showSh inf})"] else errs
